@@ -641,4 +641,200 @@ theorem pySlice_length_nat {α} (L : List α) (i j : Nat) (hij : i ≤ j) (hj : 
     (pySlice L (i : Int) (j : Int)).length = j - i := by
   rw [pySlice_nat]; simp; omega
 
+
+
+theorem weight_flatMap {α} (w : Char × List Mod → Rat) (f : α → List (Char × List Mod)) (l : List α) :
+    weight w (l.flatMap f) = (l.map fun x => weight w (f x)).sum := by
+  induction l with
+  | nil => rfl
+  | cons x t ih => rw [List.flatMap_cons, weight_append, ih, List.map_cons, List.sum_cons]
+
+theorem sliceInterval_contained (i j : Int) (iv : Interval) (hwf : iv.start < iv.stop)
+    (hci : ¬ (iv.start < i ∧ i < iv.stop)) (hcj : ¬ (iv.start < j ∧ j < iv.stop)) :
+    sliceInterval i j iv =
+      if i ≤ iv.start ∧ iv.stop ≤ j then some { iv with start := iv.start - i, stop := iv.stop - i } else none := by
+  unfold sliceInterval
+  by_cases h : i ≤ iv.start ∧ iv.stop ≤ j
+  · have h' : iv.start < j ∧ iv.stop > i := by omega
+    simp only [h, h', and_self, if_true]
+    congr 2 <;> omega
+  · have h' : ¬ (iv.start < j ∧ iv.stop > i) := by omega
+    simp [h, h']
+
+
+
+theorem slice_slice' (a : Annotation) (i j k l : Nat) (hij : i ≤ j) (hj : j ≤ a.seq.length) (hkl : k ≤ l)
+    (hl : l ≤ j - i) (hl0 : 0 < l ∨ a.intervals = none) :
+    slice (slice a (i : Int) (j : Int)) (k : Int) (l : Int) = slice a ((i + k : Nat) : Int) ((i + l : Nat) : Int) := by
+  rw [slice_eq_general a, slice_eq_general, slice_eq_general]
+  unfold sliceGeneral
+  apply Annotation.ext'
+  · exact pySlice_pySlice_nat a.seq i j k l hij hj hkl hl
+  · rfl
+  · rfl
+  · rfl
+  · rfl
+  · show (if (k : Int) > 0 then none else (if (i : Int) > 0 then none else a.nterm)) =
+      (if ((i + k : Nat) : Int) > 0 then none else a.nterm)
+    split <;> split <;> first | rfl | (split <;> first | rfl | omega) | omega
+  · show (if (l : Int) < ((pySlice a.seq (i : Int) (j : Int)).length : Int) then none
+        else (if (j : Int) < (a.seq.length : Int) then none else a.cterm)) =
+      (if ((i + l : Nat) : Int) < (a.seq.length : Int) then none else a.cterm)
+    rw [pySlice_length_nat a.seq i j hij hj]
+    split <;> split <;> first | rfl | (split <;> first | rfl | omega) | omega
+  · show (a.internal.map (·.filterMap (sliceEntry i j))).map (·.filterMap (sliceEntry k l)) =
+      a.internal.map (·.filterMap (sliceEntry ((i + k : Nat) : Int) ((i + l : Nat) : Int)))
+    cases a.internal with
+    | none => rfl
+    | some d =>
+      simp only [Option.map_some, List.filterMap_filterMap]
+      congr 2
+      funext p
+      have := sliceEntry_bind (i : Int) (j : Int) (k : Int) (l : Int) (by omega) (by omega) p
+      rw [this]; congr 1 <;> omega
+  · show noneIfEmpty ((noneIfEmpty (a.intervals.map (·.filterMap (sliceInterval i j)))).map
+        (·.filterMap (sliceInterval k l))) =
+      noneIfEmpty (a.intervals.map (·.filterMap (sliceInterval ((i + k : Nat) : Int) ((i + l : Nat) : Int))))
+    cases hI : a.intervals with
+    | none => rfl
+    | some L =>
+      have hl0' : 0 < l := by
+        rcases hl0 with h | h
+        · exact h
+        · rw [hI] at h; cases h
+      have hcomp : L.filterMap (sliceInterval ((i + k : Nat) : Int) ((i + l : Nat) : Int)) =
+          (L.filterMap (sliceInterval i j)).filterMap (sliceInterval k l) := by
+        rw [List.filterMap_filterMap]
+        congr 1
+        funext iv
+        have := sliceInterval_bind (i : Int) (j : Int) (k : Int) (l : Int) (by omega) (by omega) (by omega) iv
+        rw [this]; congr 1 <;> omega
+      simp only [Option.map_some]
+      rw [hcomp]
+      cases L.filterMap (sliceInterval i j) with
+      | nil => rfl
+      | cons x xs => rfl
+  · rfl
+  · rfl
+
+
+
+/-! ### pieces of a partition -/
+
+theorem Increasing.le {s n : Nat} {ends : List Nat} (h : Increasing s ends n) : s ≤ n := by
+  induction ends generalizing s with
+  | nil => exact h
+  | cons e rest ih => have := ih h.2; have := h.1; omega
+
+theorem drop_take_append {α} (L : List α) (s e e' : Nat) (h1 : s ≤ e) (h2 : e ≤ e') :
+    (L.drop s).take (e - s) ++ (L.drop e).take (e' - e) = (L.drop s).take (e' - s) := by
+  apply List.ext_getElem?
+  intro i
+  rw [List.getElem?_append]
+  simp only [List.getElem?_take, List.getElem?_drop, List.length_take, List.length_drop]
+  by_cases hi : i < e - s
+  · have : i < min (e - s) (L.length - s) ∨ ¬ i < min (e - s) (L.length - s) := by omega
+    rcases this with h | h
+    · have h3 : i < e' - s := by omega
+      simp [h, hi, h3]
+    · have h4 : L.length ≤ s + i := by omega
+      have h5 : L[s + i]? = none := by simp; omega
+      have h6 : L[e + (i - min (e - s) (L.length - s))]? = none := by simp; omega
+      simp [h, h5, h6]
+  · have h : ¬ i < min (e - s) (L.length - s) := by omega
+    simp only [h, if_false]
+    by_cases h7 : L.length ≤ s + i
+    · have h5 : L[s + i]? = none := by simp; omega
+      have h6 : L[e + (i - min (e - s) (L.length - s))]? = none := by simp; omega
+      simp [h5, h6]
+    · have h8 : min (e - s) (L.length - s) = e - s := by omega
+      rw [h8]
+      have h9 : e + (i - (e - s)) = s + i := by omega
+      rw [h9]
+      by_cases h10 : i < e' - s
+      · have : i - (e - s) < e' - e := by omega
+        simp [this, h10]
+      · have : ¬ i - (e - s) < e' - e := by omega
+        simp [this, h10]
+
+theorem Increasing.lastOf_bounds {s n : Nat} {ends : List Nat} (h : Increasing s ends n) :
+    s ≤ lastOf s ends ∧ lastOf s ends ≤ n ∧ (ends ≠ [] → s < lastOf s ends) := by
+  induction ends generalizing s with
+  | nil => exact ⟨Nat.le_refl _, h, fun h => absurd rfl h⟩
+  | cons e rest ih =>
+    have := ih h.2
+    have := h.1
+    simp only [lastOf]
+    refine ⟨by omega, by omega, fun _ => by omega⟩
+
+theorem pieces_weight (w : Char × List Mod → Rat) (a : Annotation) (s : Nat) (ends : List Nat)
+    (hinc : Increasing s ends a.seq.length) :
+    ((piecesFrom a s ends).map fun p => weight w (residues p)).sum =
+      weight w (((residues a).drop s).take (lastOf s ends - s)) := by
+  induction ends generalizing s with
+  | nil => simp [piecesFrom, lastOf, weight]
+  | cons e rest ih =>
+    have hb := hinc.2.lastOf_bounds
+    have hse := hinc.1
+    simp only [piecesFrom, lastOf, List.map_cons, List.sum_cons]
+    rw [ih e hinc.2, residues_slice a s e (by omega) (by omega), ← weight_append,
+      drop_take_append _ s e (lastOf e rest) (by omega) hb.1]
+
+theorem amass_slice (w : Char × List Mod → Rat) (m : Mod → Rat) (t : Option (List Mod) → Rat) (h : Rat)
+    (a : Annotation) (s e : Nat) (hiv : a.intervals = none) :
+    amass w m t h (slice a (s : Int) (e : Int)) =
+      weight w (residues (slice a (s : Int) (e : Int))) + (if s = 0 then modSum m a.nterm else 0) +
+        (if e < a.seq.length then 0 else modSum m a.cterm) + (h + inherited m t a) := by
+  obtain ⟨f1, f2, f3, f4, f5, f6, -⟩ := slice_fields a (s : Int) (e : Int)
+  have f7 : (slice a (s : Int) (e : Int)).intervals = none := by
+    rw [slice_eq_general]; simp [sliceGeneral, hiv, noneIfEmpty]
+  unfold amass inherited
+  rw [f1, f2, f4, f5, f6, f7]
+  have e1 : modSum m (if (s : Int) > 0 then none else a.nterm) = (if s = 0 then modSum m a.nterm else 0) := by
+    split <;> split <;> first | rfl | omega
+  have e2 : modSum m (if (e : Int) < (a.seq.length : Int) then none else a.cterm) =
+      (if e < a.seq.length then 0 else modSum m a.cterm) := by
+    split <;> split <;> first | rfl | omega
+  rw [e1, e2]
+  simp only [intervalSum]
+  grind
+
+theorem pieces_amass (w : Char × List Mod → Rat) (m : Mod → Rat) (t : Option (List Mod) → Rat) (h : Rat)
+    (a : Annotation) (s : Nat) (ends : List Nat) (hinc : Increasing s ends a.seq.length)
+    (hiv : a.intervals = none) :
+    ((piecesFrom a s ends).map (amass w m t h)).sum =
+      weight w (((residues a).drop s).take (lastOf s ends - s)) +
+        (if s = 0 ∧ ends ≠ [] then modSum m a.nterm else 0) +
+        (if lastOf s ends = a.seq.length ∧ ends ≠ [] then modSum m a.cterm else 0) +
+        times ends.length (h + inherited m t a) := by
+  induction ends generalizing s with
+  | nil => simp [piecesFrom, lastOf, weight, times]; grind
+  | cons e rest ih =>
+    have hb := hinc.2.lastOf_bounds
+    have hse := hinc.1
+    simp only [piecesFrom, lastOf, List.map_cons, List.sum_cons, List.length_cons, times]
+    rw [ih e hinc.2, amass_slice w m t h a s e hiv,
+      residues_slice a s e (by omega) (by omega),
+      ← drop_take_append (residues a) s e (lastOf e rest) (by omega) hb.1, weight_append]
+    have e0 : ¬ (e = 0 ∧ rest ≠ []) := by omega
+    simp only [e0, if_false, ne_eq, reduceCtorEq, not_false_eq_true, and_true]
+    by_cases hr : rest = []
+    · subst hr
+      simp only [lastOf, ne_eq, not_true_eq_false, and_false, if_false]
+      have : e ≤ a.seq.length := hb.2.1
+      by_cases he : e < a.seq.length
+      · have : ¬ e = a.seq.length := by omega
+        simp only [he, this, if_true, if_false]; grind
+      · have : e = a.seq.length := by omega
+        simp only [he, this, if_true, if_false]; grind
+    · have h1 := hb.2.2 hr
+      have he : e < a.seq.length := by omega
+      simp only [he, if_true, hr, ne_eq, not_false_eq_true, and_true]
+      grind
+
+theorem times_zero_add (k : Nat) (h : Rat) : times k (h + 0) = times k h := by
+  induction k with
+  | zero => rfl
+  | succ k ih => simp only [times, ih]; grind
+
 end Pept.Reorder
